@@ -7,6 +7,7 @@ import (
 	"fmt"
 	"io"
 	"io/ioutil"
+	"math"
 	"net/http"
 	"path"
 	"strconv"
@@ -613,7 +614,12 @@ func contextFromHeaders(parent context.Context, h http.Header) (context.Context,
 				unit = time.Nanosecond
 			}
 			if unit != 0 {
-				ctx, cancel = context.WithTimeout(ctx, time.Duration(timeoutVal)*unit)
+				d := time.Duration(timeoutVal) * unit
+				if timeoutVal > int64(math.MaxInt64/unit) {
+					// too large to represent (e.g. "99999999H"): saturate instead of wrapping around
+					d = math.MaxInt64
+				}
+				ctx, cancel = context.WithTimeout(ctx, d)
 			}
 		}
 	}
